@@ -1089,6 +1089,95 @@ def _only(s):
     return s
 
 
+def _src_norm(t, n):
+    """source text of a statement without comments and white space (used to RECOGNISE an effect leaf, never to give
+    it meaning)"""
+    txt = t.source_text(n)
+    if txt is None:
+        fail("no source text for a %s" % n.get("kind"))
+    txt = re.sub(r"//[^\n]*", "", txt)
+    txt = re.sub(r"/\*.*?\*/", "", txt, flags=re.S)
+    return re.sub(r"\s+", "", txt)
+
+
+def _const_int(n):
+    n = _strip(n)
+    while n["kind"] in ("ImplicitCastExpr", "CStyleCastExpr", "CXXStaticCastExpr") and len(kids(n)) == 1:
+        n = _strip(kids(n)[0])
+    if n["kind"] == "IntegerLiteral":
+        return int(n["value"])
+    if n["kind"] == "BinaryOperator" and n.get("opcode") == "|":
+        return _const_int(kids(n)[0]) | _const_int(kids(n)[1])
+    fail("mask is not a constant")
+
+
+def _bit_cond(n):
+    """conditions of the dispatch chain: `pfd.revents & MASK`, `i == received`, `||`, `&&`, `!`  ->  Lean Prop text
+    over `revents : Nat` and `isReceived : Bool`"""
+    n = _strip(n)
+    while n["kind"] == "ImplicitCastExpr" and len(kids(n)) == 1:
+        n = _strip(kids(n)[0])
+    k = n["kind"]
+    if k == "BinaryOperator" and n.get("opcode") in ("||", "&&"):
+        return "(%s %s %s)" % (_bit_cond(kids(n)[0]), "∨" if n["opcode"] == "||" else "∧", _bit_cond(kids(n)[1]))
+    if k == "UnaryOperator" and n.get("opcode") == "!":
+        return "(¬ %s)" % _bit_cond(kids(n)[0])
+    if k == "BinaryOperator" and n.get("opcode") == "&":
+        if canon(kids(n)[0]) != "pfd.revents":
+            fail("bit test of `%s`" % canon(kids(n)[0])[:40])
+        return "(revents &&& %d ≠ 0)" % _const_int(kids(n)[1])
+    if k == "BinaryOperator" and n.get("opcode") == "==" and sorted([canon(kids(n)[0]), canon(kids(n)[1])]) == ["i", "received"]:
+        return "(isReceived = true)"
+    fail("condition of the dispatch chain outside the subset (%s)" % k)
+
+
+SOCKET_LEAVES = {
+    "sock.DriverOnReadable();return;": ".readable",
+    "if(sock.DriverOnWritable()){pfd.events&=~POLLOUT;};return;": ".writable",
+    "sock.DriverOnError(\"pollhangup/error\");return;": ".error",
+}
+
+
+def tr_socket_chain(repo, docs, src):
+    """`Driver::DriverImpl::DoOneSocketTask(received)`: the per-socket `if / else if` chain of its `for` loop as a
+    decision function of the socket's `revents` and of `i == received` (what the model calls `pick`)"""
+    fn = find_function(docs, "DoOneSocketTask", "DriverImpl", ("CXXMethodDecl",))
+    t = Fn(repo, [("revents", INTS["unsigned int"]), ("isReceived", BOOL)], {})
+    t.bind_params(fn)
+    t.file = _file_of(repo, docs, fn, src)
+    top = [x for x in kids(body_of(fn)) if not _is_assert(x)]
+    if len(top) != 2 or top[0]["kind"] != "ForStmt" or _src_norm(t, top[1]) not in (
+            'throwstd::logic_error("unhandledpollevent")', 'throwstd::logic_error("unhandledpollevent");'):
+        fail("body is not `for(..) {..} throw std::logic_error(\"unhandled poll event\")`")
+    fk = kids(top[0])
+    head = _src_norm(t, top[0])
+    if not head.startswith("for(size_ti=0U;i<sockets.size();++i)"):
+        fail("loop header is `%s`" % head[:50])
+    ss = [x for x in kids(fk[-1]) if not _is_assert(x)]
+    decls = [x for x in ss if x["kind"] == "DeclStmt"]
+    rest = [x for x in ss if x["kind"] != "DeclStmt"]
+    if sorted(_src_norm(t, d) for d in decls) != sorted(["auto&&pfd=pfds[i+1U];", "auto&&sock=sockets[i].get();"]):
+        fail("the loop body does not start with the bindings of `pfd` and `sock`")
+    if len(rest) != 1 or rest[0]["kind"] != "IfStmt":
+        fail("the loop body is not one if / else-if chain")
+
+    def chain(n, ind):
+        pad = "  " * ind
+        parts = kids(n)
+        c = _bit_cond(parts[0])
+        leaf = "".join(_src_norm(t, x).rstrip(";") + ";" for x in (kids(parts[1]) if parts[1]["kind"] == "CompoundStmt" else [parts[1]]))
+        if leaf not in SOCKET_LEAVES:
+            fail("unrecognised task `%s`" % leaf[:80])
+        if len(parts) == 2:
+            el = pad + "  .next"
+        elif parts[2]["kind"] == "IfStmt":
+            el = chain(parts[2], ind + 1)
+        else:
+            fail("the chain ends in a plain else")
+        return "%sif %s then\n%s  %s\n%selse\n%s" % (pad, c, pad, SOCKET_LEAVES[leaf], pad, el)
+    return t, chain(rest[0], 1)
+
+
 def tr_range_guard(repo, docs, src):
     """`CheckServiceNumericOutOfRange`: the condition of its (only) if statement on the parsed number"""
     fn = find_function(docs, "CheckServiceNumericOutOfRange", None, ("FunctionDecl",))
@@ -1153,6 +1242,8 @@ def SPECS():
                                      [("addrLen", U32), ("other_addrLen", U32), ("cmp", I32)], {}, BOOL)),
         ("Send_dispatch", "SendChoice", "socket_impl.cpp", "SocketImpl::Send",
          lambda r, d, s: tr_decision(r, d, s, "Send", "SocketImpl", [("timeout", MS)], {}, SEND_TABLE)),
+        ("SocketTask_chain", "TaskChoice", "driver_impl.cpp", "DriverImpl::DoOneSocketTask",
+         lambda r, d, s: tr_socket_chain(r, d, s)),
         ("ServiceOutOfRange", "Bool", "address_impl.cpp", "CheckServiceNumericOutOfRange",
          lambda r, d, s: tr_range_guard(r, d, s)),
     ]
@@ -1177,6 +1268,8 @@ WHAT = {
     "SockAddrView_lt": "`SockAddrView::operator<`",
     "SockAddrView_eq": "`SockAddrView::operator==`",
     "Send_dispatch": "decision structure of `SocketImpl::Send(data, size, Duration timeout)`",
+    "SocketTask_chain": "`Driver::DriverImpl::DoOneSocketTask(received)`: the if / else-if chain applied to socket `i` "
+                        "(`revents` = `pfds[i + 1].revents`, `isReceived` = `i == received`)",
     "ServiceOutOfRange": "`CheckServiceNumericOutOfRange`: the condition under which it throws, on `port = std::stoll(serv)`",
 }
 
@@ -1219,6 +1312,15 @@ inductive StepChoice where
   | todosUnlimited    -- StepSockets(StepTodos(DeadlineUnlimitedTime()))
   | todosZero         -- StepSockets(StepTodos(DeadlineZeroTime()))
   | todosLimited      -- StepSockets(StepTodos(DeadlineLimited(timeout)))
+  deriving Repr, DecidableEq
+
+/-- what `Driver::DriverImpl::DoOneSocketTask` does with one socket of its list: a task and `return`, or on to the
+next socket -/
+inductive TaskChoice where
+  | readable          -- sock.DriverOnReadable(); return
+  | writable          -- if(sock.DriverOnWritable()) pfd.events &= ~POLLOUT; return
+  | error             -- sock.DriverOnError("poll hangup/error"); return
+  | next
   deriving Repr, DecidableEq
 
 /-- what `SocketImpl::Send(data, size, timeout)` calls -/
@@ -1344,6 +1446,13 @@ How the text below is obtained (TRUSTED part of the translator, in addition to G
    `front->when` with `auto &front = todos.front()` is `W.frontWhen`, `todos.pop_front()` after
    `auto task = std::move(front)` is `W.popFront`, `task->what()` is `W.runTask`, `todos.empty()` is `W.todosEmpty`;
    the deadline object is the fields of its flavour, its `Remaining()/TimeLeft()` the stage-1 leaves of that flavour;
+ * `SocketAsyncImpl::DriverSend / DriverSendTo` and the enqueue side `Send / SendTo -> DoSend -> DoSendEnqueue` run over
+   `QueueWorld` (prelude): `auto &&[promise, buffer(, addr)] = q.front()` names fields of the front element; `q.size()`,
+   `q.empty()`, `q.pop()`, `q.emplace(..)`, `buffer->size()`, `buffer->erase(0, n)`, `promise.set_value()`,
+   `promise.set_exception(..)`, `buff->sock->SendSome(buffer->data(), n)`, `buff->sock->SendTo(buffer->data(), n,
+   addr->ForUdp())`, `buff->sock->DriverPending()`, `driver.lock()`, `ptr->AsyncWantSend(buff->sock->fd)` are its fields;
+   `try B catch(X const &) H` is `M.tryCatch .X B H` (B, H yield `some v` on `return v`); the function-level
+   `std::lock_guard<std::mutex> lock(sendQMtx)` is `W.lock` and `W.unlock` before every `return`;
  * a `string_view` is its cursor plus the text of its immutable end (length = end - cursor); the fixed arguments of a
    loop are all parameters and all locals it does not change, in declaration order (canonical loop signature);
  * `do B while(c)`, `for(;;) B`, `while(c) B` become `<F>_loop<k>`: structural recursion on a fuel
